@@ -40,7 +40,8 @@ FILL = -77.0
 
 def bounds(tier, seed):
     return dict(shapes=LABEL_SHAPES_QUICK if tier == "quick" else LABEL_SHAPES_THOROUGH, max_full=4 if tier == "quick" else 6,
-                stratum=(9, seed % 9))
+                max_full_3d_labels=4, stratum=(9, seed % 9), stratum_2x2x2=(81, seed % 81),
+                chunk_grids="quick: first two and last; thorough: all for <=4 label elements, first three and last two beyond")
 
 
 def shards(tier, seed):
